@@ -18,11 +18,17 @@ from . import rt, util
 SCENARIOS = {
     "C04": ("gtsim.scenarios.history", {"prop": "C04"}),
     "C02": ("gtsim.scenarios.history", {"prop": "C02"}),
+    "C01": ("gtsim.scenarios.history", {"prop": "C01"}),
+    "C19": ("gtsim.scenarios.history", {"prop": "C19"}),
+    "C11": ("gtsim.scenarios.bayes", {"prop": "C11"}),
 }
 
 RUNS = {  # property -> (quick runs, thorough runs)
     "C04": (1200, 40000),
     "C02": (700, 20000),
+    "C01": (1200, 40000),
+    "C19": (800, 25000),
+    "C11": (1500, 40000),
 }
 
 PER_RUN_TIMEOUT = 600
@@ -65,6 +71,8 @@ def worker_minimise(args):
     from . import minimise
 
     mod, kw = _load(prop)
+    if hasattr(mod, "minimise"):
+        return mod.minimise(record, budget)
     return minimise.minimise(mod, record, budget)
 
 
@@ -262,6 +270,7 @@ class Agg:
             "real_components": ["gaussian_toolbox (all modules, from /repo working tree)", "jax / jaxlib / XLA CPU"],
             "stub_components": [],
             "extra": dict(self.extra),
+            "other_counters": {k: v for k, v in self.stats.items() if not k.startswith(("op.", "chk.", "fault_fired."))},
         }
         ev = {
             "property_id": self.prop, "tier": self.tier, "seed": int(self.seed), "level": "exploration",
